@@ -472,7 +472,7 @@ class Executor:
             base, targs = split_generic(container.cls)
             if base == "Opt":
                 base, targs = split_generic(targs[0])
-            if base == "dict":
+            if base in ("dict", "ddict"):
                 if not isinstance(item, S):
                     self.unsupported(node, "dict[str] membership of non-str")
                 return z3.Select(path.sel("dict.has", container.e), item.e)
@@ -514,13 +514,22 @@ class Executor:
                 self.run.oblige(path, "builtin", f"list-index-in-range@{getattr(node, 'lineno', 0)}",
                                 z3.And(k.e >= 0, k.e < n))
                 return [(path, wrap(targs[0] if targs else "Val", z3.Select(path.sel("list.arr", c.e), k.e)))]
-            if base == "dict" and isinstance(k, S):
+            if base in ("dict", "ddict") and isinstance(k, S):
                 has = z3.Select(path.sel("dict.has", c.e), k.e)
                 res = []
                 for p2, bv in self.branch(path, has):
+                    vt = targs[1] if len(targs) > 1 else "Val"
                     if bv:
-                        vt = targs[1] if len(targs) > 1 else "Val"
                         res.append((p2, wrap(vt, z3.Select(p2.sel("dict.val", c.e), k.e))))
+                    elif base == "ddict":
+                        # collections.defaultdict: a missing key is created by the factory
+                        for p3, nv in class_model(vt).ctor(self, p2, CallArgs([], {}), node):
+                            if isinstance(nv, Raise):
+                                res.append((p3, nv))
+                                continue
+                            p3.store("dict.has", c.e, z3.Store(p3.sel("dict.has", c.e), k.e, True))
+                            p3.store("dict.val", c.e, z3.Store(p3.sel("dict.val", c.e), k.e, nv.e))
+                            res.append((p3, nv))
                     else:
                         res.append((p2, Raise(Exc("KeyError", {"key": k}))))
                 return res
@@ -706,7 +715,8 @@ class Executor:
                 if isinstance(r, Raise):
                     out.append((p, r))
                     continue
-                if isinstance(r, O) and class_model(r.cls)._find("methods", node.func.attr) is not None:
+                if isinstance(r, O) and (class_model(r.cls)._find("methods", node.func.attr) is not None or (
+                        node.func.attr in STR_METHODS and getattr(class_model(r.cls), "as_str", None) is not None)):
                     callee_results.append((p, BM(r, node.func.attr)))
                 elif isinstance(r, (S, T, I, B)):
                     callee_results.append((p, BM(r, node.func.attr)))
@@ -793,6 +803,9 @@ class Executor:
             m = class_model(recv.cls)
             me = m._find("methods", name)
             if me is None:
+                r = self.str_method_on_object(path, recv, name, ca, node)
+                if r is not None:
+                    return r
                 self.unsupported(node, f"method {name} of {recv.cls}")
             return self.invoke_spec(path, me[1], recv, ca, f"{m.name}.{name}", node)
         if isinstance(recv, S):
@@ -800,6 +813,13 @@ class Executor:
             if h:
                 return h(self, path, recv, ca, node)
         self.unsupported(node, f"method {name} of {type(recv).__name__}")
+
+    def str_method_on_object(self, path, recv: O, name: str, ca, node):
+        fn = getattr(class_model(recv.cls), "as_str", None)
+        h = STR_METHODS.get(name)
+        if fn is None or h is None:
+            return None
+        return h(self, path, S(fn(path, recv)), ca, node)
 
     def invoke_spec(self, path, spec: MethodSpec, recv: Optional[V], ca: CallArgs, label: str, node=None):
         if spec.kind == "model":
